@@ -161,16 +161,23 @@ Reason ==
     [] OTHER -> Ev.ev
 
 TResync ==
-  /\ l <= NRec /\ ~taint /\ Ev.ev \notin {"load", "loadfail"}
+  /\ l <= NRec /\ ~taint /\ Ev.ev \notin {"load", "loadfail", "hang"}
   /\ ~ENABLED TRegular
   /\ bad' = bad \cup { << l, Reason >> } /\ taint' = TRUE /\ l' = l + 1
   /\ UNCHANGED << allvars, pure >>
 
+(* the harness' watchdog: the session's thread never came back - the debugger was spinning without executing *)
+(* an instruction or reading a command (C16)                                                               *)
+THang ==
+  /\ l <= NRec /\ Ev.ev = "hang"
+  /\ bad' = bad \cup { << l, "no-progress" >> } /\ taint' = TRUE /\ l' = l + 1
+  /\ UNCHANGED << allvars, pure >>
+
 TSkip ==
-  /\ l <= NRec /\ taint /\ Ev.ev \notin {"load", "loadfail"}
+  /\ l <= NRec /\ taint /\ Ev.ev \notin {"load", "loadfail", "hang"}
   /\ l' = l + 1 /\ UNCHANGED << allvars, bad, taint, pure >>
 
-Next == TLoad \/ TLoadFail \/ TRegular \/ TResync \/ TSkip
+Next == TLoad \/ TLoadFail \/ TRegular \/ TResync \/ TSkip \/ THang
 Spec == Init /\ [][Next]_vars
 
 TypeOK == /\ st.pc \in W /\ st.cc \in {0, 1, 2, 4} /\ \A k \in 0 .. 7 : st.reg[k] \in W
